@@ -49,3 +49,53 @@ Qed.
 Definition once_b (t: list ev) : bool := pairs_eqb (map (keyof (inserted t)) (outs (polls_from 0 t))) (yields t).
 Theorem once_b_spec t : once_b t = true <-> map (keyof (inserted t)) (outs (polls_from 0 t)) = yields t.
 Proof. apply pairs_eqb_spec. Qed.
+
+(* ---- C04 / C05: the result of a join / try_join as a boolean predicate over the trace ---- *)
+Fixpoint nl_eqb (a b: list nat) : bool :=
+  match a, b with [], [] => true | x :: a', y :: b' => (x =? y) && nl_eqb a' b' | _, _ => false end.
+Lemma nl_eqb_spec a b : nl_eqb a b = true <-> a = b.
+Proof.
+  revert b. induction a as [|x a IH]; intros [|y b]; cbn; try (split; [discriminate|discriminate]); [tauto|].
+  rewrite andb_true_iff, Nat.eqb_eq, IH. split; [intros [-> ->]; reflexivity|intros E; inversion E; auto].
+Qed.
+Definition okres_b (tryj: bool) (n: nat) (o: out) (P: list (nat * ans)) : bool :=
+  let vec vs := nl_eqb (errs P) [] && (length vs =? n) && forallb (fun i => nl_eqb (okl i P) [nth i vs 0]) (seq 0 n) in
+  match o with
+  | OVals vs => negb tryj && vec vs
+  | OOk vs => tryj && vec vs
+  | OErr e => match rev P with
+              | (i, AReady (RErr e')) :: P0r => (e' =? e) && nl_eqb (errs (rev P0r)) []
+              | _ => false
+              end
+  | _ => false
+  end.
+Lemma okres_b_spec tryj n o P : okres_b tryj n o P = true <-> Okres tryj n o P.
+Proof.
+  assert (V : forall vs, nl_eqb (errs P) [] && (length vs =? n) && forallb (fun i => nl_eqb (okl i P) [nth i vs 0]) (seq 0 n) = true <->
+                errs P = [] /\ length vs = n /\ forall i, i < n -> okl i P = [nth i vs 0]).
+  { intros vs. rewrite !andb_true_iff, nl_eqb_spec, Nat.eqb_eq, forallb_forall. split.
+    - intros [[A B] C]. split; [exact A|]. split; [exact B|]. intros i Hi. apply nl_eqb_spec, C, in_seq. lia.
+    - intros (A & B & C). split; [split; auto|]. intros i Hi. apply nl_eqb_spec, C. apply in_seq in Hi. lia. }
+  unfold okres_b, Okres. destruct o as [vs|vs|e|es|k vs|]; try (split; [discriminate|contradiction]).
+  - rewrite andb_true_iff, negb_true_iff, V. tauto.
+  - rewrite andb_true_iff, V. tauto.
+  - split.
+    + destruct (rev P) as [|[i a] P0r] eqn:E; [discriminate|]. destruct a as [|[v|e']| | |]; try discriminate.
+      rewrite andb_true_iff, Nat.eqb_eq, nl_eqb_spec. intros [-> H]. exists (rev P0r), i. split; [|exact H].
+      rewrite <- (rev_involutive P), E. cbn. reflexivity.
+    + intros (P0 & i & -> & H). rewrite rev_app_distr. cbn. rewrite rev_involutive, Nat.eqb_refl. cbn. apply nl_eqb_spec. exact H.
+Qed.
+Definition c05_b (tryj: bool) (n: nat) (t: list ev) : bool :=
+  match results t with [] => true | [o] => okres_b tryj n o (polls_from 0 t) | _ => false end.
+Theorem c05_b_spec tryj n t : c05_b tryj n t = true <-> (results t = [] \/ exists o, results t = [o] /\ Okres tryj n o (polls_from 0 t)).
+Proof.
+  unfold c05_b. destruct (results t) as [|o [|o' r]].
+  - split; auto.
+  - rewrite okres_b_spec. split; [intros H; right; exists o; auto|intros [X|(o1 & E & H)]; [discriminate|inversion E; subst; exact H]].
+  - split; [discriminate|intros [X|(o1 & E & H)]; discriminate].
+Qed.
+(* every history of the model passes it: the statement of C05_join as a boolean over the observable trace *)
+Theorem c05_b_holds selective tryj tuple scs ops : let w := join_run' selective tryj tuple scs ops in
+  dropped _ w = false -> c05_b tryj (length scs) (strip (tr _ w)) = true.
+Proof. intros w Hd. apply c05_b_spec. exact (C05_join selective tryj tuple scs ops Hd). Qed.
+Print Assumptions c05_b_holds.
